@@ -367,11 +367,54 @@ func ruleLossyConv(p *Prog, r *Report) {
 	const rule = "R3-lossy"
 	sizes := types.SizesFor("gc", "amd64")
 	nConv := 0
+	// the factories and the helpers of their package they hand values to
+	// (two levels): a conversion may have been moved into such a helper
+	type unit struct {
+		fn    *ssa.Function
+		name  string
+		sites int // call sites that reach it (1 for a factory)
+	}
+	var units []unit
+	seenFn := map[*ssa.Function]int{}
+	var addCallees func(g *ssa.Function, depth int)
+	addCallees = func(g *ssa.Function, depth int) {
+		if depth > 2 {
+			return
+		}
+		for _, b := range g.Blocks {
+			for _, instr := range b.Instrs {
+				c, ok := instr.(*ssa.Call)
+				if !ok {
+					continue
+				}
+				h := c.Common().StaticCallee()
+				if h == nil || h.Pkg != g.Pkg || h.Blocks == nil || isFactory(h) || strings.Contains(h.Name(), "checkRep") {
+					continue
+				}
+				if _, seen := seenFn[h]; !seen {
+					seenFn[h] = len(units)
+					units = append(units, unit{h, h.Name(), 0})
+					addCallees(h, depth+1)
+				}
+				units[seenFn[h]].sites++
+			}
+		}
+	}
 	for _, name := range []string{"NewIntNode", "NewUintNode", "NewBinaryNode", "NewFloatNode", "NewBooleanNode", "NewListNode"} {
 		fn := p.MustFunc(r, "ast", name)
 		if fn == nil {
 			continue
 		}
+		seenFn[fn] = len(units)
+		units = append(units, unit{fn, name, 1})
+	}
+	for _, u := range append([]unit{}, units...) {
+		if isFactory(u.fn) {
+			addCallees(u.fn, 1)
+		}
+	}
+	for _, u := range units {
+		fn, name := u.fn, u.name
 		for _, b := range fn.Blocks {
 			for _, instr := range b.Instrs {
 				cv, ok := instr.(*ssa.Convert)
@@ -383,7 +426,7 @@ func ruleLossyConv(p *Prog, r *Report) {
 				if !ok1 || !ok2 {
 					continue
 				}
-				nConv++
+				nConv += u.sites
 				st, dt := types.TypeString(cv.X.Type(), nil), types.TypeString(cv.Type(), nil)
 				key := fmt.Sprintf("%s:ast.%s:%s->%s", rule, name, st, dt)
 				if slo.Cmp(dlo) >= 0 && shi.Cmp(dhi) <= 0 {
@@ -392,8 +435,9 @@ func ruleLossyConv(p *Prog, r *Report) {
 				}
 				// lossy: every source value outside the target range must be refused before the conversion
 				src, isInstr := cv.X.(ssa.Instruction)
-				if !isInstr {
-					r.unk(rule, key, p.Pos(cv.Pos()), "operand of a lossy conversion is not an instruction result")
+				prm, isParam := cv.X.(*ssa.Parameter)
+				if !isInstr && !isParam {
+					r.unk(rule, key, p.Pos(cv.Pos()), "operand of a lossy conversion is neither an instruction result nor a parameter")
 					continue
 				}
 				var cuts []*big.Int
@@ -414,7 +458,14 @@ func ruleLossyConv(p *Prog, r *Report) {
 						}
 						return Val{}, false
 					}
-					o2 := in.RunOuter(fn, defaultArgs(fn), src.Block(), outer)
+					var o2 Outcome
+					if isParam {
+						_ = prm
+						in.ResetHeap()
+						o2 = in.Run(fn, defaultArgs(fn), nil)
+					} else {
+						o2 = in.RunOuter(fn, defaultArgs(fn), src.Block(), outer)
+					}
 					if o2.Frame.Reached(cv) {
 						leak = append(leak, c.String())
 					}
